@@ -321,7 +321,8 @@ func onResourceRuleUpdate(res string, rawResRules []*Rule) (err error) {
 		breakers[res] = newCbsOfRes
 	}
 	updateMux.Unlock()
-	currentRules[res] = rawResRules
+	// keep a private copy: the caller may reuse its slice for the next load, which is compared against this one
+	currentRules[res] = append(make([]*Rule, 0, len(rawResRules)), rawResRules...)
 
 	logging.Debug("[CircuitBreaker onResourceRuleUpdate] Time statistics(ns) for updating circuit breaker rule", "timeCost", util.CurrentTimeNano()-start)
 	logging.Info("[CircuitBreaker] load resource level rules", "resource", res, "validResRules", validResRules)
